@@ -122,7 +122,7 @@ void vl_end (int nontrivial, uint64_t outcome)
 	{	if (sh->outset [i] == k) break ;
 		if (sh->outset [i] == 0) { sh->outset [i] = k ; sh->noutcomes ++ ; break ; }
 		}
-	if (sh->nsamples < MAX_SAMPLES && (sh->evals == 1 || nontrivial) && (sh->evals % 7 == 1 || sh->nsamples == 0))
+	if (sh->nsamples < MAX_SAMPLES && (sh->evals == 1 || sh->evals == 101 || sh->evals == 1009 || sh->evals == 5003 || sh->evals == 20011 || sh->evals == 40009))
 	{	memcpy (sh->samples [sh->nsamples], cur_spec_local, SPEC_LEN) ; sh->nsamples ++ ; }
 	if (replay_mode) printf ("END outcome=%016llx violations=%d\n", (unsigned long long) outcome, case_viols) ;
 	sh->cur_idx = -1 ;
